@@ -30,6 +30,10 @@ pub enum Policy {
     Alternating,
     /// random mixture
     Mixed,
+    /// at every position the match at the farthest allowed distance (= the advertised window), as long as it goes;
+    /// bytes that do not match there are literals (block k a copy of block k-1 with a few bytes replaced: the block's
+    /// literals are exactly the replaced bytes)
+    Aligned,
 }
 
 #[derive(Clone, Debug, Serialize, Deserialize)]
@@ -84,7 +88,7 @@ pub struct ScriptedMatcher {
     pub stats_all_ll_zero: usize,
     pub stats_all_ml_min: usize,
     pub stats_far_offsets: usize,
-    pub stats_policy_used: [u64; 7],
+    pub stats_policy_used: [u64; 8],
     pub parse_digest: Digest,
     /// set when a generated parse fails the harness' own validation (harness error, never a violation)
     pub invalid_parse: Option<String>,
@@ -107,7 +111,7 @@ impl ScriptedMatcher {
             stats_all_ll_zero: 0,
             stats_all_ml_min: 0,
             stats_far_offsets: 0,
-            stats_policy_used: [0; 7],
+            stats_policy_used: [0; 8],
             parse_digest: Digest::new(),
             invalid_parse: None,
         }
@@ -144,7 +148,7 @@ impl ScriptedMatcher {
             }
             // literal run before the next attempt
             let want_lit = match policy {
-                Policy::ZeroLiteralChains => 0,
+                Policy::ZeroLiteralChains | Policy::Aligned => 0,
                 Policy::MinLength | Policy::Greedy | Policy::FarFirst => {
                     if self.rng.chance(1, 3) {
                         self.rng.urange(0, 4)
@@ -180,10 +184,12 @@ impl ScriptedMatcher {
             let mut best: Option<(usize, usize)> = None;
             let tries = match policy {
                 Policy::FarFirst => 3,
+                Policy::Aligned => 1,
                 _ => 4,
             };
             for t in 0..tries {
                 let o = match policy {
+                    Policy::Aligned => reach,
                     Policy::FarFirst => {
                         if t == 0 {
                             reach
@@ -216,7 +222,7 @@ impl ScriptedMatcher {
                                 3
                             }
                         }
-                        Policy::Greedy | Policy::FarFirst => l,
+                        Policy::Greedy | Policy::FarFirst | Policy::Aligned => l,
                         _ => match self.rng.below(3) {
                             0 => 3,
                             1 => l,
@@ -379,6 +385,27 @@ impl Engine for C16 {
             }
             return C16Plan { window_uncompressed: 0, space_size, window: space_size.max(1024), parse_seed: r.next_u64(), jobs: vec![Job16 { fastest: true, content: Content::Concat(parts), policies: vec![Policy::LiteralOnly], chunks: vec![] }] };
         }
+        if r.chance(1, 10) {
+            // literals over a tiny alphabet: block k is block k-1 with every n-th byte replaced by one of 1-3 byte values
+            // and the parse matches everything else at distance = one block, so the block's literals are exactly the
+            // replaced bytes (one distinct symbol, two, three; more or fewer than the 1024 that make the encoder try a
+            // Huffman table)
+            let space_size = *r.pick(&[4096usize, 16384, 40_000, 65536, 131072]);
+            let every = *r.pick(&[4usize, 5, 8, 16, 31, 64]);
+            let seed = r.next_u64();
+            let base = if r.chance(1, 2) { Content::Random { len: space_size, seed } } else { Content::Markov { len: space_size, seed } };
+            let nsym = *r.pick(&[1usize, 1, 2, 3]);
+            let first = r.byte();
+            let bytes: Vec<u8> = (0..nsym).map(|i| first.wrapping_add(i as u8 * 41)).collect();
+            let mut parts = vec![base.clone()];
+            for _ in 0..r.urange(1, 3) {
+                parts.push(Content::Holes { base: Box::new(base.clone()), every, bytes: bytes.clone() });
+            }
+            if r.chance(1, 2) {
+                parts.push(Content::Holes { base: Box::new(with_len(&base, r.urange(1, space_size))), every, bytes: bytes.clone() });
+            }
+            return C16Plan { window_uncompressed: 0, space_size, window: space_size.max(1024), parse_seed: r.next_u64(), jobs: vec![Job16 { fastest: true, content: Content::Concat(parts), policies: vec![Policy::Aligned], chunks: vec![] }] };
+        }
         let big = r.chance(1, 12);
         let space_size = if big { 128 * 1024 } else { *r.pick(&[1usize, 2, 3, 5, 16, 100, 1024, 1025, 1500, 1725, 2034, 2798, 4096, 10_000, 40_000]) };
         let window = space_size.max(1024) * *r.pick(&[1usize, 1, 2, 5]);
@@ -506,7 +533,7 @@ impl Engine for C16 {
         if m.stats_sequences_max >= 32512 {
             stats.inc("probe.block_with_32512_or_more_sequences");
         }
-        for (i, n) in ["literal_only", "greedy", "min_length", "far_first", "zero_literal_chains", "alternating", "mixed"].iter().enumerate() {
+        for (i, n) in ["literal_only", "greedy", "min_length", "far_first", "zero_literal_chains", "alternating", "mixed", "aligned"].iter().enumerate() {
             stats.add(&format!("policy.{n}"), m.stats_policy_used[i]);
         }
         stats.set_insert("seqcount_classes", (usize::BITS - m.stats_sequences_max.leading_zeros()) as u64);
@@ -583,6 +610,7 @@ impl Engine for C16 {
     fn expected_reach(&self, _tier: Tier) -> Vec<&'static str> {
         vec![
             "matcher.blocks_parsed",
+            "policy.aligned",
             "matcher.blocks_skipped",
             "probe.block_with_all_literal_lengths_zero",
             "probe.block_with_all_matches_minimal",
